@@ -972,3 +972,228 @@ func ruleFLAGMONOTONE(p *Program, rep *Report) {
 		rep.Unknown("FLAG-MONOTONE", "anchor", "", "no store to Page.flags.dirty/flushed/freed found (anchor lost)")
 	}
 }
+
+// ---- C05: structural clauses of event framing ----
+
+// dataSliceHas: the backward data slice of v contains the SSA value target / the struct field f.
+func dataSliceHas(p *Program, v ssa.Value, target ssa.Value, f *types.Var, within map[*ssa.Function]bool) bool {
+	s := &slicer{p: p, fields: map[*types.Var]bool{}, seen: map[sliceKey]bool{}, dataOnly: true, within: within}
+	s.walk(v, 0, nil, 0)
+	if f != nil && s.fields[f] {
+		return true
+	}
+	if target != nil {
+		for k := range s.seen {
+			if k.v == target {
+				return true
+			}
+		}
+	}
+	return false
+}
+
+// ruleEVENTSIZESOURCE (C05): the size header of an event is the number of payload bytes appended for it.
+// (a) Writer.Next stores into eventHeader.sz a value computed from writeState.eventBytes;
+// (b) wherever payload is appended to the buffer (buffer.Append(p)) every path from there to a return adds the
+//     length of that same p to writeState.eventBytes.
+// If either pairing breaks, the reader frames the stream wrongly: events come back truncated, merged or
+// shifted for every chunking the producer uses.
+func ruleEVENTSIZESOURCE(p *Program, rep *Report) {
+	rep.Rule("EVENT-SIZE-SOURCE", 2, "the event size header written by Writer.Next is computed from writeState.eventBytes, and every buffer.Append(p) is followed on every path by an update of eventBytes that depends on that same p (every appended byte is counted in the event's size)")
+	next := p.Method("pq", "Writer", "Next")
+	szF := p.FieldVar("pq", "eventHeader", "sz")
+	evB := p.FieldVar("pq", "writeState", "eventBytes")
+	appendFn := p.Method("pq", "buffer", "Append")
+	rep.Analysed(funcName(next))
+	// (a)
+	n := 0
+	for fn := range staticReach(p, next) {
+		if fnPkgPath(fn) != modPath+"/pq" {
+			continue
+		}
+		for _, b := range fn.Blocks {
+			for _, ins := range b.Instrs {
+				c, ok := ins.(ssa.CallInstruction)
+				if !ok || len(c.Common().Args) < 2 {
+					continue
+				}
+				sc := c.Common().StaticCallee()
+				if sc == nil || sc.Name() != "Set" {
+					continue
+				}
+				fa, ok := c.Common().Args[0].(*ssa.FieldAddr)
+				if !ok || fieldOfAddr(fa) != szF {
+					continue
+				}
+				n++
+				key := funcName(fn) + "|eventHeader.sz"
+				if dataSliceHas(p, c.Common().Args[1], nil, evB, staticReach(p, next)) {
+					rep.OK("EVENT-SIZE-SOURCE", key, p.InstrPos(ins), "size header computed from writeState.eventBytes")
+				} else {
+					rep.Bad("EVENT-SIZE-SOURCE", key, p.InstrPos(ins), "the size stored in the event header does not depend on writeState.eventBytes, the count of payload bytes appended for this event: the reader frames the event with a wrong length")
+				}
+			}
+		}
+	}
+	if n == 0 {
+		rep.Unknown("EVENT-SIZE-SOURCE", "Writer.Next|eventHeader.sz", p.Pos(next.Pos()), "no store of the event size header below Writer.Next (anchor lost)")
+	}
+	// (b)
+	m := 0
+	for _, fn := range p.SrcFuncs() {
+		if fnPkgPath(fn) != modPath+"/pq" || fn == appendFn {
+			continue
+		}
+		for _, b := range fn.Blocks {
+			for i, ins := range b.Instrs {
+				c, ok := ins.(ssa.CallInstruction)
+				if !ok || c.Common().StaticCallee() != appendFn || len(c.Common().Args) < 2 {
+					continue
+				}
+				m++
+				rep.Analysed(funcName(fn))
+				key := funcName(fn) + "|Append~eventBytes"
+				payload := c.Common().Args[1]
+				// blocks holding a store to eventBytes that depends on the payload
+				counted := map[*ssa.BasicBlock]bool{}
+				sameBlockAfter := false
+				for _, b2 := range fn.Blocks {
+					for j, ins2 := range b2.Instrs {
+						st, ok := storesToField(ins2, evB)
+						if !ok {
+							continue
+						}
+						dep := false
+						s := &slicer{p: p, fields: map[*types.Var]bool{}, seen: map[sliceKey]bool{}, dataOnly: true}
+						s.walk(st.Val, 0, nil, 0)
+						for k := range s.seen {
+							if k.v == payload || (stripConv(k.v) == stripConv(payload)) {
+								dep = true
+							}
+						}
+						if !dep {
+							continue
+						}
+						if b2 == b && j > i {
+							sameBlockAfter = true
+						}
+						counted[b2] = true
+					}
+				}
+				ok2 := sameBlockAfter
+				if !ok2 && len(counted) > 0 {
+					ok2 = true
+					for blk := range reachableAvoiding(b, counted, nil) {
+						if blk == b {
+							continue
+						}
+						if _, isRet := blk.Instrs[len(blk.Instrs)-1].(*ssa.Return); isRet {
+							ok2 = false
+						}
+					}
+					if _, isRet := b.Instrs[len(b.Instrs)-1].(*ssa.Return); isRet && !counted[b] {
+						ok2 = false
+					}
+				}
+				if ok2 {
+					rep.OK("EVENT-SIZE-SOURCE", key, p.InstrPos(ins), "appended payload counted in eventBytes on every path")
+				} else {
+					rep.Bad("EVENT-SIZE-SOURCE", key, p.InstrPos(ins), "payload is appended to the write buffer but on some path to a return writeState.eventBytes is not increased by the length of that payload: the event's size header will be smaller than its contents and the reader delivers a truncated event and mis-parses what follows")
+				}
+			}
+		}
+	}
+	if m == 0 {
+		rep.Unknown("EVENT-SIZE-SOURCE", "Writer|Append", "", "no call of buffer.Append found in package pq (anchor lost)")
+	}
+}
+
+// ruleREADCONSUME (C05): what the cursor reports as consumed is what the reader takes off the remaining size of
+// the current event and off the caller's buffer.  All bookkeeping of one step derives from the same value.
+func ruleREADCONSUME(p *Program, rep *Report) {
+	rep.Rule("READ-CONSUME", 1, "in the reader's copy loop the byte count returned by txCursor.Read is, before the next call of Read or any return, subtracted from readState.eventBytes (remaining bytes of the event): the remaining size and the cursor position stay in step, so an event is neither over-read into the next one nor cut short")
+	read := p.Method("pq", "txCursor", "Read")
+	evB := p.FieldVar("pq", "readState", "eventBytes")
+	n := 0
+	for _, fn := range p.SrcFuncs() {
+		if fnPkgPath(fn) != modPath+"/pq" || fn == read {
+			continue
+		}
+		for _, b := range fn.Blocks {
+			for i, ins := range b.Instrs {
+				c, ok := ins.(*ssa.Call)
+				if !ok || c.Common().StaticCallee() != read {
+					continue
+				}
+				n++
+				rep.Analysed(funcName(fn))
+				key := funcName(fn) + "|consumed~eventBytes"
+				var consumed ssa.Value
+				if c.Referrers() != nil {
+					for _, r := range *c.Referrers() {
+						if ex, ok := r.(*ssa.Extract); ok && ex.Index == 0 {
+							consumed = ex
+						}
+					}
+				}
+				if consumed == nil {
+					rep.Bad("READ-CONSUME", key, p.InstrPos(ins), "the byte count returned by txCursor.Read is dropped")
+					continue
+				}
+				counted := map[*ssa.BasicBlock]bool{}
+				sameBlockAfter := false
+				for _, b2 := range fn.Blocks {
+					for j, ins2 := range b2.Instrs {
+						st, ok := storesToField(ins2, evB)
+						if !ok {
+							continue
+						}
+						// same-iteration dependence: not through the loop-carried φ of the request size
+						sl := &slicer{p: p, fields: map[*types.Var]bool{}, seen: map[sliceKey]bool{}, dataOnly: true, noPhi: true}
+						sl.walk(st.Val, 0, nil, 0)
+						dep := false
+						for k := range sl.seen {
+							if k.v == consumed {
+								dep = true
+							}
+						}
+						if !dep {
+							continue
+						}
+						if b2 == b && j > i {
+							sameBlockAfter = true
+						}
+						counted[b2] = true
+					}
+				}
+				ok2 := sameBlockAfter
+				if !ok2 && len(counted) > 0 {
+					ok2 = true
+					reach := reachableAvoiding(b, counted, nil)
+					for blk := range reach {
+						if blk == b {
+							continue
+						}
+						if _, isRet := blk.Instrs[len(blk.Instrs)-1].(*ssa.Return); isRet {
+							ok2 = false
+						}
+					}
+					// back to the call without counting
+					for _, s := range b.Succs {
+						if !counted[s] && (s == b || reachableAvoiding(s, counted, nil)[b]) {
+							ok2 = false
+						}
+					}
+				}
+				if ok2 {
+					rep.OK("READ-CONSUME", key, p.InstrPos(ins), "consumed bytes are taken off the remaining event size before the next step")
+				} else {
+					rep.Bad("READ-CONSUME", key, p.InstrPos(ins), "the bytes consumed by txCursor.Read are not (on every path) subtracted from readState.eventBytes before the next Read or return: the reader's remaining-size and its cursor drift apart — the event is over-read into the next event's header or ends early")
+				}
+			}
+		}
+	}
+	if n == 0 {
+		rep.Unknown("READ-CONSUME", "anchor", "", "no call of txCursor.Read found in package pq (anchor lost)")
+	}
+}
